@@ -51,6 +51,9 @@ theorem ignoreData_al (s : Streams) (sz : Nat) : AL [] s (s.ignoreData sz).1 := 
 theorem recvOpen_al (s : Streams) (id : Nat) (b : Bool) : AL [] s (s.recvOpen id b).1 := by
   unfold Streams.recvOpen; al_auto
 
+theorem notifyPushIfRecvEnded_al (s : Streams) (k : Nat) : AL [] s (s.notifyPushIfRecvEnded k) := by
+  unfold Streams.notifyPushIfRecvEnded; al_auto
+
 theorem recvRecvTrailers_al (s : Streams) (k : Nat) (h : HeadersIn) (hk : Live s k) : AL [] s (s.recvRecvTrailers k h).1 := by
   unfold Streams.recvRecvTrailers
   split
